@@ -175,7 +175,7 @@ structure State where
 def parseStep (E : Engines) (S : State) (p : Program) : State × Except Exc (List Label) :=
   match p.parsed with
   | .invalid e => (S, .ok [{ name := sAst ++ e, spans := [(1, (p.lines : Int), [])] }])
-  | .empty => (S, .ok [{ name := sAst ++ sEmpty, spans := [(0, 0, [])] }])
+  | .empty => (S, .ok [{ name := sAst ++ sEmpty, spans := [(1, (p.lines : Int), [])] }])
   | .tree reprs =>
     let (h, values) := HashState.reset.callAll reprs
     match p.regexLabels values with
